@@ -230,6 +230,33 @@ class SList:
         return "SList[" + ", ".join(f"{x}:{g}" for g, x in self.items) + "]"
 
 
+class Choice(SList):
+    """One-of value: guarded alternatives (result of min over a guarded collection, of a constructor applied to a
+    guarded set, or of merging two different atoms)."""
+
+    @staticmethod
+    def of(x):
+        return x if isinstance(x, Choice) else Choice([(True, x)])
+
+
+def subsets_of(s):
+    """All (guard, frozenset) with guard = 'the guarded set s equals this subset'."""
+    items = list(SSet.of(s).d.items())
+    out = []
+    for mask in range(1 << len(items)):
+        gs, sub = [], []
+        for i, (k, g) in enumerate(items):
+            if mask >> i & 1:
+                gs.append(g)
+                sub.append(k)
+            else:
+                gs.append(bnot(g))
+        g = band(*gs)
+        if is_sym(g) or g:
+            out.append((g, frozenset(sub)))
+    return out
+
+
 class SymCount:
     """Number of present elements of a guarded collection; supports comparison with a concrete int."""
 
@@ -309,4 +336,7 @@ def merge(c, a, b):
             return a
     except Exception:  # noqa: BLE001
         pass
+    atom = lambda x: isinstance(x, Choice) or (not isinstance(x, (SSet, SList, GList, list, set, dict, SBool)) and x is not None and getattr(type(x), "__hash__", None) is not None and not hasattr(x, "__merge__"))
+    if atom(a) and atom(b):
+        return Choice([(band(c, g), x) for g, x in Choice.of(a).items] + [(band(bnot(c), g), x) for g, x in Choice.of(b).items])
     raise Unsupported(f"cannot merge {type(a).__name__} with {type(b).__name__} under a symbolic condition")
